@@ -234,7 +234,8 @@ MAT_GRID = [(None, 1, False), (None, 1, True), (None, 2, False), (None, 2, True)
 LAP_GRID = [1, 2]
 
 # (site = public function name, label, shape, tolerance, flags, function of H)
-# flags: 'orderable' = needs mutually orderable node labels (Trie sorts members)
+# flags: 'orderable' = needs mutually orderable node labels (Trie sorts members); 'eids-orderable' = needs mutually
+#        orderable edge IDs; 'order-only' = compared only under the identity relabelling (re-insertion alone)
 M = []
 
 
@@ -318,6 +319,64 @@ _m("degree_matrix", "degree_matrix(order=1)", ND, _degmat(1))
 _m("intersection_profile", "intersection_profile", EE, _prof)
 
 
+# ---- attribute-dependent quantities: the networks of the metamorphic run carry an edge attribute "weight" (absent on
+# some edges: default 1) and a node attribute "mass", both carried along by the relabelling
+W, MASS = "weight", "mass"
+
+
+def _incw(sparse, with_mass):
+    def f(H):
+        wf = (lambda n, e, G: G.edges[e].get(W, 1) * G.nodes[n].get(MASS, 1)) if with_mass else (lambda n, e, G: G.edges[e].get(W, 1))
+        I, r, c = xgi.incidence_matrix(H, sparse=sparse, index=True, weight=wf)
+        return mat_rc(I, r, c)
+    return f
+
+
+def _nlapw(sparse):
+    def f(H):
+        L, r = xgi.normalized_hypergraph_laplacian(H, weighted=True, sparse=sparse, index=True)
+        return mat_rc(L, r, r)
+    return f
+
+
+def _line(s, weights):
+    def f(H):
+        G = xgi.to_line_graph(H, s=s, weights=weights)
+        if G.is_directed() or G.is_multigraph():
+            raise AssertionError("to_line_graph did not return a simple graph")
+        return ({n: frozenset(d.get("original_hyperedge", ())) for n, d in G.nodes(data=True)},
+                {frozenset((a, b)): d.get("weight", "unweighted") for a, b, d in G.edges(data=True)})
+    return f
+
+
+LINE = ('tuple', ('dict', 'e', ('set', 'n')), ('dict', ('set', 'e'), 'x'))
+_m("degree", "nodes.degree(weight)", ND, lambda H: H.nodes.degree(weight=W).asdict())
+_m("degree", "nodes.degree(order=1,weight)", ND, lambda H: H.nodes.degree(order=1, weight=W).asdict())
+_m("degree", "nodes.degree(order=2,weight)", ND, lambda H: H.nodes.degree(order=2, weight=W).asdict())
+_m("degree", "nodes.degree(weight=absent key)", ND, lambda H: H.nodes.degree(weight="no-such-attribute").asdict())
+_m("degree", "weighted degree statistics", 'x', lambda H: _stat_summary(H.nodes.degree(weight=W)))
+_m("attrs", "edges.attrs(weight)", ED, lambda H: H.edges.attrs(W).asdict())
+_m("attrs", "edges.attrs(weight,missing=1)", ED, lambda H: H.edges.attrs(W, missing=1).asdict())
+_m("attrs", "nodes.attrs(mass)", ND, lambda H: H.nodes.attrs(MASS).asdict())
+_m("attrs", "nodes.attrs (all)", ('dict', 'n', 'x'), lambda H: {n: sorted(d.items()) for n, d in H.nodes.attrs.asdict().items()})
+_m("attrs", "edges.attrs (all)", ('dict', 'e', 'x'), lambda H: {e: sorted(d.items()) for e, d in H.edges.attrs.asdict().items()})
+_m("filterby_attr", "edges.filterby_attr(weight>1)", ('set', 'e'), lambda H: set(H.edges.filterby_attr(W, 1, mode="gt", missing=1)))
+_m("filterby_attr", "nodes.filterby_attr(mass=2)", ('set', 'n'), lambda H: set(H.nodes.filterby_attr(MASS, 2)))
+_m("incidence_matrix", "incidence_matrix(weight=edge attribute)", NE, _incw(False, False))
+_m("incidence_matrix", "incidence_matrix(weight=node x edge attribute,sparse)", NE, _incw(True, True))
+_m("normalized_hypergraph_laplacian", "normalized_hypergraph_laplacian(weighted)", NN, _nlapw(False))
+_m("normalized_hypergraph_laplacian", "normalized_hypergraph_laplacian(weighted,sparse)", NN, _nlapw(True))
+_m("to_line_graph", "to_line_graph(s=1)", LINE, _line(1, None))
+_m("to_line_graph", "to_line_graph(s=1,absolute)", LINE, _line(1, "absolute"))
+_m("to_line_graph", "to_line_graph(s=2,normalized)", LINE, _line(2, "normalized"))
+_m("isolates", "nodes.isolates", ('set', 'n'), lambda H: set(H.nodes.isolates()))
+_m("singletons", "edges.singletons", ('set', 'e'), lambda H: set(H.edges.singletons()))
+# the exact result of duplicates(): the representative left out of every class is the smallest ID (sorted()), so the
+# exact set is invariant under re-insertion alone when the IDs are mutually orderable (flags: compared only for the
+# identity relabelling; needs orderable edge IDs / node labels)
+_m("duplicates", "edges.duplicates() (exact, reordering only)", ('set', 'e'), lambda H: set(H.edges.duplicates()), flags=("order-only", "eids-orderable"))
+_m("duplicates", "nodes.duplicates() (exact, reordering only)", ('set', 'n'), lambda H: set(H.nodes.duplicates()), flags=("order-only", "orderable"))
+
 
 def _adjt(order):
     import itertools
@@ -361,15 +420,16 @@ def orderable(labels):
         return False
 
 
-def evaluate(H, fn, fe, labels=None, skip_unorderable=False):
-    """all measures (or those in `labels`) on H, canonicalised with labels mapped through fn / fe.
-    A raised exception is the value ('$err', type name)."""
+def evaluate(H, fn, fe, labels=None, skip_unorderable=False, skip_flags=()):
+    """all measures (or those in `labels`) on H, canonicalised with labels mapped through fn / fe; measures carrying
+    a flag in `skip_flags` are left out.  A raised exception is the value ('$err', type name)."""
     fnl, fel = fn, fe
     out = {}
+    skip = set(skip_flags) | ({"orderable"} if skip_unorderable else set())
     for site, label, shape, tol, flags, f in M:
         if labels is not None and label not in labels:
             continue
-        if skip_unorderable and "orderable" in flags:
+        if skip & flags:
             continue
         try:
             out[label] = norm(shape, f(H), fnl, fel)
